@@ -155,3 +155,77 @@ func H_C12_child() {
 	verif.Reach("child write checked")
 	verif.Assert(err == nil && eqTree(got, model), "C12/write through child visible through parent")
 }
+
+// H_C12_list_history: longer histories on one list (removals leave spare capacity behind,
+// writes past the end pad with nils): after every step the list equals the model's.
+func H_C12_list_history() {
+	model := nDict().set("a", nList(nUint(verif.Uint64("x0")), nUint(verif.Uint64("x1")), nUint(verif.Uint64("x2"))))
+	c, err := ucfg.NewFrom(model.toGo())
+	verif.Assume(err == nil)
+	n := 3
+	if verif.Tier() > 0 {
+		n = 4
+	}
+	for s := 0; s < n; s++ {
+		p := "op" + itoa(s)
+		if verif.Choice(p+".kind", 2) == 0 {
+			idx := verif.Choice(p+".idx", 2)
+			removed, err := c.Remove("a", idx)
+			mrem, ok := modelRemove(model, parseAddr("a", idx, false))
+			verif.Assert((err == nil) == ok && removed == mrem, "C12/list history: Remove outcome")
+		} else {
+			idx := verif.Choice(p+".idx", 5)
+			u := verif.Uint64(p + ".u")
+			err := c.SetUint("a", idx, u)
+			ok := modelSet(model, parseAddr("a", idx, false), nUint(u))
+			verif.Assert((err == nil) == ok, "C12/list history: SetUint outcome")
+		}
+		got, err := unpackTree(c)
+		verif.Assert(err == nil && eqTree(got, model), "C12/list history: whole tree equals model/step"+itoa(s))
+		l := model.get("a")
+		cnt, err := c.CountField("a")
+		if len(l.List) > 0 {
+			verif.Assert(err == nil && cnt == len(l.List), "C12/list history: CountField")
+		}
+		for i := range l.List {
+			has, herr := c.Has("a", i)
+			verif.Assert(herr == nil && has, "C12/list history: every position below the length exists (gaps are nil settings)")
+			if l.List[i].Kind == kNil {
+				s, serr := c.String("a", i)
+				verif.Assert(serr == nil && s == "null", "C12/list history: a padded position reads as the nil setting")
+			}
+		}
+	}
+	verif.Reach("list history checked")
+}
+
+// H_C12_child_after_remove: a child handle stays a live view when elements before it are removed.
+func H_C12_child_after_remove() {
+	model := nDict().set("l", nList(nDict().set("id", nUint(0)), nDict().set("id", nUint(1)), nDict().set("id", nUint(2))))
+	c, err := ucfg.NewFrom(model.toGo())
+	verif.Assume(err == nil)
+	k := 1 + verif.Choice("handle", 2) // handle to element 1 or 2
+	h, err := c.Child("l", k)
+	verif.Assume(err == nil)
+	j := verif.Choice("remove", 3)
+	removed, err := c.Remove("l", j)
+	mrem, _ := modelRemove(model, parseAddr("l", j, false))
+	verif.Assert(err == nil && removed == mrem, "C12/child after remove: Remove outcome")
+	if j == k {
+		return // the handle's element itself was removed: it is detached now
+	}
+	pos := k
+	if j < k {
+		pos = k - 1
+	}
+	u := verif.Uint64("u")
+	v := verif.Uint64("v")
+	verif.Assert(h.SetUint("tag", -1, u) == nil, "C12/child after remove: write through the handle accepted")
+	model.get("l").List[pos].set("tag", nUint(u))
+	got, err := unpackTree(c)
+	verif.Assert(err == nil && eqTree(got, model), "C12/child after remove: write through the handle is visible through the parent")
+	verif.Assert(c.SetUint("l."+itoa(pos)+".id", -1, v, ucfg.PathSep(".")) == nil, "C12/child after remove: write through the parent accepted")
+	id, err := h.Uint("id", -1)
+	verif.Assert(verif.And(err == nil, id == v), "C12/child after remove: write through the parent is visible through the handle")
+	verif.Reach("child liveness after remove checked")
+}
